@@ -163,7 +163,7 @@ PROPS = {
     },
     'C02': {
         'id': 'C02', 'area': 'dp',
-        'theorems': ['Props.C02_written_parses'],
+        'theorems': ['Props.C02_roundtrip', 'Props.C02_roundtrip_alone', 'Props.C02_parsed_in_range', 'Props.C02_written_parses'],
         'n_quick': 3000, 'n_thorough': 30000,
     },
     'C10': {
